@@ -313,7 +313,7 @@ def valid(kind, p, h):
     if kind in ("Cosine", "Spike", "Gaussian"):
         return fin and p[1] > 0
     if kind == "GaussianProduct":
-        return fin and p[1] > 0 and p[3] > 0 and p[0] <= p[2]
+        return fin and p[1] > 0 and p[3] > 0  # mean_a > mean_b is legitimate (shipped example all_terms): both factors apply
     if kind == "Sigmoid":
         return fin and p[1] != 0
     if kind in ("SigmoidDifference", "SigmoidProduct"):
